@@ -10,6 +10,12 @@
 #   f(e) (f itself)        recursion on explicit fuel: Fixpoint c_f (fuel) ..., nofuel when it runs out
 #   free(p)                free_node p       Crash when p is NULL / not allocated (double free); afterwards p is not allocated
 #   free(p->name|data)     dropped: the payload buffers are not part of this heap model
+#   tbl->compare(name, namesize, p->name, p->namesize)   cmp_key kc p : the comparator's answer for the searched key at node p
+#                          (Crash when p is NULL / not allocated); the int that receives it may be compared with a literal
+#   parameters that are not node pointers (tbl, name, namesize, copydata, datasize) are not modelled: a recursive call must pass
+#                          them on unchanged; statements that only touch payload fields (name, data, namesize, datasize) and an
+#                          `if` whose branches consist of such statements only are dropped; tbl->num++ / -- are dropped (the element
+#                          counter is compared by the lockstep runs)
 #   <counter>++            dropped: only for the global statistics counters named in COUNTERS
 #   errno = E              dropped (the helpers' errno is not part of what is proved here)
 # Anything else stops the translation with an error naming the construct: a change of the C text that leaves this
@@ -17,7 +23,9 @@
 import os, re, json, subprocess
 
 FUNCS = ['is_red', 'flip_color', 'rotate_left', 'rotate_right', 'move_red_left', 'move_red_right', 'fix',
-         'find_min', 'find_max', 'remove_min']
+         'find_min', 'find_max', 'remove_min', 'put_obj']
+KEYED = ('put_obj',)           # translated inside a Section over kc : positive -> Z (the comparator's answer for the searched key at a node)
+PAYLOAD_FIELDS = ('name', 'data', 'namesize', 'datasize')
 PAYLOAD = ('name', 'data')      # fields of the node object that are not part of the heap model
 COUNTERS = re.compile(r'^_q_treetbl_\w+_cnt$')
 FIELDS = ('red', 'left', 'right')
@@ -49,7 +57,11 @@ def is_ptr(n):
 class Fn:
     def __init__(self, decl):
         self.name = decl['name']
-        self.params = [c['name'] for c in decl.get('inner', []) if c.get('kind') == 'ParmVarDecl']
+        allp = [c for c in decl.get('inner', []) if c.get('kind') == 'ParmVarDecl']
+        self.all_params = [c['name'] for c in allp]
+        self.params = [c['name'] for c in allp if 'qtreetbl_obj_t *' in c['type']['qualType']]
+        self.opaque = set(self.all_params) - set(self.params)
+        self.ints = set()
         self.body = [c for c in decl['inner'] if c.get('kind') == 'CompoundStmt'][0]
         self.ret_ptr = '*' in decl['type']['qualType'].split('(')[0]
         self.n = 0
@@ -79,7 +91,7 @@ class Fn:
             raise Unsupported('integer literal %d in %s' % (v, self.name))
         if k == 'DeclRefExpr':
             nm = n['referencedDecl']['name']
-            if nm in self.locals:
+            if nm in self.locals or nm in self.ints:
                 return ('p', nm)
             raise Unsupported('reference to %s in %s' % (nm, self.name))
         if k == 'MemberExpr':
@@ -97,6 +109,14 @@ class Fn:
                                  else ('p', '(%s && %s)' % (x, tb[1])))
             return self.bind(self.tr(a), lambda x: ('m', 'if %s then ret true else (%s)' % (x, bt)) if tb[0] == 'm'
                              else ('p', '(%s || %s)' % (x, tb[1])))
+        if k == 'BinaryOperator' and n.get('opcode') in ('==', '!=', '<', '>', '<=', '>='):
+            a0, b0 = strip(n['inner'][0]), strip(n['inner'][1])
+            if a0.get('kind') == 'DeclRefExpr' and a0['referencedDecl']['name'] in self.ints and b0.get('kind') == 'IntegerLiteral':
+                fn = {'==': 'Z.eqb %s %s', '!=': 'negb (Z.eqb %s %s)', '<': 'Z.ltb %s %s', '>': 'Z.ltb %s %s', '<=': 'Z.leb %s %s', '>=': 'Z.leb %s %s'}[n['opcode']]
+                x, y = a0['referencedDecl']['name'], '%s%%Z' % b0['value']
+                if n['opcode'] in ('>', '>='):
+                    x, y = y, x
+                return ('p', '(' + fn % (x, y) + ')')
         if k == 'BinaryOperator' and n.get('opcode') in ('==', '!='):
             a, b = n['inner']
             ta, tb = self.tr(a), self.tr(b)
@@ -117,6 +137,32 @@ class Fn:
         if k == 'CallExpr':
             f = strip(n['inner'][0])
             nm = f.get('referencedDecl', {}).get('name')
+            if f.get('kind') == 'MemberExpr' and f.get('name') == 'compare':
+                args = [strip(a) for a in n['inner'][1:]]
+                ok = (len(args) == 4 and args[0].get('kind') == 'DeclRefExpr' and args[1].get('kind') == 'DeclRefExpr'
+                      and args[0]['referencedDecl']['name'] in self.opaque and args[1]['referencedDecl']['name'] in self.opaque
+                      and args[2].get('kind') == 'MemberExpr' and args[2].get('name') == 'name'
+                      and args[3].get('kind') == 'MemberExpr' and args[3].get('name') == 'namesize'
+                      and json.dumps(strip(args[2]['inner'][0]).get('referencedDecl', {}).get('id')) == json.dumps(strip(args[3]['inner'][0]).get('referencedDecl', {}).get('id')))
+                if not ok:
+                    raise Unsupported('comparator call of an unexpected form in %s' % self.name)
+                return self.bind(self.tr(args[2]['inner'][0]), lambda x: ('m', 'cmp_key kc %s' % x))
+            if nm == self.name and len(n['inner']) - 1 == len(self.all_params) and len(self.all_params) > 1:
+                self.recursive = self.uses_fuel = True
+                res = None
+                vals = []
+                for pn, a in zip(self.all_params, n['inner'][1:]):
+                    if pn in self.opaque:
+                        a1 = strip(a)
+                        if a1.get('kind') != 'DeclRefExpr' or a1['referencedDecl']['name'] != pn:
+                            raise Unsupported('recursive call of %s changes the argument %s' % (nm, pn))
+                    else:
+                        vals.append(a)
+                def chain(i, acc):
+                    if i == len(vals):
+                        return ('m', 'c_%s fuel %s' % (nm, ' '.join(acc)))
+                    return self.bind(self.tr(vals[i]), lambda x: chain(i + 1, acc + [x]))
+                return chain(0, [])
             if nm == 'free' and len(n['inner']) == 2:
                 a = strip(n['inner'][1])
                 if a.get('kind') == 'MemberExpr' and a.get('name') in PAYLOAD:
@@ -156,6 +202,23 @@ class Fn:
                 out.append(s)
         return out
 
+    def has_call(self, n):
+        return n.get('kind') == 'CallExpr' or any(self.has_call(c) for c in n.get('inner', []))
+
+    def payload_only(self, s):
+        k = s.get('kind')
+        if k == 'CompoundStmt':
+            return all(self.payload_only(c) for c in s.get('inner', []))
+        if k == 'NullStmt':
+            return True
+        if k == 'CallExpr':
+            f = strip(s['inner'][0]); a = strip(s['inner'][1]) if len(s['inner']) == 2 else {}
+            return f.get('referencedDecl', {}).get('name') == 'free' and a.get('kind') == 'MemberExpr' and a.get('name') in PAYLOAD
+        if k == 'BinaryOperator' and s.get('opcode') == '=':
+            l = strip(s['inner'][0])
+            return l.get('kind') == 'MemberExpr' and l.get('name') in PAYLOAD_FIELDS and not self.has_call(s['inner'][1])
+        return False
+
     def has_return(self, s):
         if s.get('kind') == 'ReturnStmt':
             return True
@@ -188,7 +251,10 @@ class Fn:
                 raise Unsupported('declaration without initialiser in %s' % self.name)
             v = decls[0]['name']
             r = self.tr(decls[0]['inner'][0])
-            self.locals.add(v)
+            if decls[0]['type']['qualType'] == 'int':
+                self.ints.add(v)
+            else:
+                self.locals.add(v)
             return self.mon(self.bind(r, lambda x: ('m', 'let %s := %s in\n  %s' % (v, x, self.block(rest, tail)))))
         if k == 'BinaryOperator' and s.get('opcode') == '=':
             l = strip(s['inner'][0])
@@ -200,6 +266,8 @@ class Fn:
                 if nm not in self.locals:
                     raise Unsupported('assignment to %s in %s' % (nm, self.name))
                 return self.mon(self.bind(self.tr(rhs), lambda x: ('m', 'let %s := %s in\n  %s' % (nm, x, self.block(rest, tail)))))
+            if l.get('kind') == 'MemberExpr' and l.get('name') in PAYLOAD_FIELDS and not self.has_call(rhs):
+                return self.block(rest, tail)
             if l.get('kind') == 'MemberExpr' and l.get('isArrow') and l['name'] in FIELDS:
                 return self.mon(self.bind(self.tr(l['inner'][0]), lambda b: self.bind(self.tr(rhs), lambda x:
                                 ('m', 'bnd (st_%s %s %s) (fun _ =>\n  %s)' % (l['name'], b, x, self.block(rest, tail))))))
@@ -210,12 +278,16 @@ class Fn:
             t = strip(s['inner'][0])
             if t.get('kind') == 'DeclRefExpr' and COUNTERS.match(t['referencedDecl']['name']):
                 return self.block(rest, tail)
+            if t.get('kind') == 'MemberExpr' and t.get('name') == 'num' and strip(t['inner'][0]).get('referencedDecl', {}).get('name') in self.opaque:
+                return self.block(rest, tail)
             raise Unsupported('increment of something other than a statistics counter in %s' % self.name)
         if k == 'CallExpr':
             r = self.tr(s)
             if r == ('p', 'tt'):
                 return self.block(rest, tail)
             return 'bnd (%s) (fun _ =>\n  %s)' % (self.mon(r), self.block(rest, tail))
+        if k == 'IfStmt' and not self.has_call(s['inner'][0]) and all(self.payload_only(b) for b in s['inner'][1:]):
+            return self.block(rest, tail)
         if k == 'IfStmt':
             parts = s['inner']
             cond, th = parts[0], [parts[1]]
@@ -273,12 +345,15 @@ def generate(repo):
         if d.get('kind') == 'FunctionDecl' and d.get('name') in FUNCS and any(c.get('kind') == 'CompoundStmt' for c in d.get('inner', [])):
             decls[d['name']] = d
     out = ["(* GENERATED by tools/gen_treeops.py from clang's AST of src/containers/qtreetbl.c -- do not edit *)",
-           "From Coq Require Import PArith Bool.", "From QV.Base Require Import Res.", "From QV.Tree Require Import TreeHeap.", ""]
+           "From Coq Require Import PArith ZArith Bool.", "From QV.Base Require Import Res.", "From QV.Tree Require Import TreeHeap.", ""]
     for f in FUNCS:
         if f not in decls:
             raise SystemExit('gen_treeops: function %s not found in qtreetbl.c' % f)
         try:
-            out.append(Fn(decls[f]).emit())
+            txt = Fn(decls[f]).emit()
+            if f in KEYED:
+                txt = 'Section WithKey_%s.\nVariable kc : positive -> Z.\n%sEnd WithKey_%s.\n' % (f, txt, f)
+            out.append(txt)
         except Unsupported as e:
             raise SystemExit('gen_treeops: cannot translate: %s' % e)
     return {'TreeOps.v': '\n'.join(out)}
